@@ -138,11 +138,15 @@ func (t *Table) indexTypeOK(item val.Item) bool {
 
 // InIndex reports whether the item belongs to the (sparse) index.
 func InIndex(ix drv.IndexCfg, item val.Item) bool {
-	if _, ok := item[ix.Hash]; !ok {
+	h, ok := item[ix.Hash]
+	if !ok || ix.HashT != "" && h.T != ix.HashT {
+		// (an item whose attribute has another type than the index key can only predate the
+		// index: writes of such items are rejected; it is not part of the index)
 		return false
 	}
 	if ix.Range != "" {
-		if _, ok := item[ix.Range]; !ok {
+		r, ok := item[ix.Range]
+		if !ok || ix.RangeT != "" && r.T != ix.RangeT {
 			return false
 		}
 	}
@@ -317,6 +321,25 @@ func (m *Model) Do(op drv.Op) drv.Resp {
 			return drv.Resp{}
 		}
 		return drv.Resp{Desc: t.desc()}
+	case drv.KUpdateTbl:
+		// all the changes or none: the request is applied to a copy first
+		if _, ok := m.Tables[op.Table]; !ok {
+			return reject(drv.ENotFound)
+		}
+		trial := m.Clone()
+		var last drv.Resp
+		for _, ch := range op.Changes {
+			sub := drv.Op{K: drv.KDeleteGSI, Table: op.Table, Index: ch.Delete}
+			if ch.Create != nil {
+				sub = drv.Op{K: drv.KCreateGSI, Table: op.Table, IdxCfg: ch.Create}
+			}
+			last = trial.Do(sub)
+			if len(last.ErrSet) > 0 || last.Err != "" {
+				return last
+			}
+		}
+		m.Tables = trial.Tables
+		return last
 	case drv.KDeleteGSI:
 		t, ok := m.Tables[op.Table]
 		if !ok {
